@@ -89,6 +89,7 @@ class InterpCore(object):
         self.module_cache = {}
         self.raises = []          # (cond-path, exc value, site)
         self.path_conds = []
+        self.sticky_conds = []
         self.float_as_frac = True
         self.hooks = {}           # fq name -> python callable(interp, args, kwargs) overriding a repo function
 
@@ -163,6 +164,8 @@ class InterpCore(object):
                 return v
         if name in self._BUILTINS:
             return ExtV("builtins." + name)
+        if name == "__name__" and m is not None:
+            return Const(m.name)
         if name in ("True", "False", "None"):
             return Const({"True": True, "False": False, "None": None}[name])
         self.err(node, "unresolved name %r" % name)
@@ -180,6 +183,8 @@ class InterpCore(object):
             return Const(v)
         if isinstance(v, (int, float)):
             if isinstance(v, float):
+                return self._float_const(node, env, v)
+            if False:
                 src = ast.get_source_segment(env.find_module().src, node) if env.find_module() else None
                 try:
                     return Num(ep.const(ep.frac(src.replace("_", "")) if src and _is_plain_decimal(src) else ep.frac(v)))
@@ -189,6 +194,15 @@ class InterpCore(object):
         if isinstance(v, bytes):
             return Const(v)
         self.err(node, "constant %r" % (v,))
+
+    def _float_const(self, node, env, v):
+        m = env.find_module()
+        src = ast.get_source_segment(m.src, node) if m is not None else None
+        try:
+            fr = ep.frac(src.replace("_", "")) if src and _is_plain_decimal(src) else ep.frac(v)
+        except Exception:
+            fr = ep.frac(v)
+        return Num(ep.const(fr), inexact=(fr.denominator != 1))
 
     def e_Name(self, node, env):
         return self.lookup_name(node.id, env, node)
@@ -289,17 +303,18 @@ class InterpCore(object):
             return Unknown("arith")
         x = self.num(a, node)
         y = self.num(b, node)
+        inex = bool(getattr(a, "inexact", False) or getattr(b, "inexact", False))
         try:
             if isinstance(op, ast.Add):
-                return Num(x + y)
+                return Num(x + y, inex)
             if isinstance(op, ast.Sub):
-                return Num(x - y)
+                return Num(x - y, inex)
             if isinstance(op, ast.Mult):
-                return Num(x * y)
+                return Num(x * y, inex)
             if isinstance(op, ast.Div):
-                return Num(x / y)
+                return Num(x / y, True)
             if isinstance(op, ast.Pow):
-                return Num(ep.pow_(x, y))
+                return Num(ep.pow_(x, y), inex or y.as_const() is None or y.as_const().denominator != 1 or y.as_const() < 0)
             if isinstance(op, ast.FloorDiv):
                 cx, cy = x.as_const(), y.as_const()
                 if cx is not None and cy is not None:
@@ -490,7 +505,7 @@ class InterpCore(object):
             self.used_assumptions.add(nk)
             return not self.assumptions[nk]
         # conditions implied by the current path
-        for pc, val in self.path_conds:
+        for pc, val in self.path_conds + self.sticky_conds:
             if pc.key() == k:
                 return val
             if neg_cond(pc).key() == k:
@@ -600,6 +615,11 @@ def neg_cond(c):
 
 
 def make_phi(cond, a, b):
+    ck = cond.key()
+    while isinstance(a, Phi) and a.cond.key() == ck:
+        a = a.a
+    while isinstance(b, Phi) and b.cond.key() == ck:
+        b = b.b
     if a is b:
         return a
     if a is not None and b is not None and not isinstance(a, Undefined) and not isinstance(b, Undefined):
